@@ -637,6 +637,13 @@ func orderName(o string) string {
 // dispatcher to the kind allocated in that clause.
 func dispatcherCases(w *World, fi *FuncInfo) map[int64]string {
 	out := dispatcherCasesIn(w, fi)
+	// a lookup table (package-level map or slice of constructors indexed by the code) is a switch written
+	// as data: each entry is a case
+	for v, k := range dispatchTableCases(w, fi) {
+		if _, dup := out[v]; !dup {
+			out[v] = k
+		}
+	}
 	if len(out) > 0 {
 		return out
 	}
@@ -715,6 +722,125 @@ func dispatcherCasesIn(w *World, fi *FuncInfo) map[int64]string {
 		}
 		return true
 	})
+	return out
+}
+
+// allocatedKind finds the kind a constructor-like expression or function body yields: new(T), &T{…},
+// NewT(…), or a function literal / named function that returns one of these.
+func allocatedKind(w *World, info *types.Info, e ast.Expr, depth int) string {
+	kind := ""
+	var scan func(n ast.Node)
+	scan = func(n ast.Node) {
+		ast.Inspect(n, func(m ast.Node) bool {
+			if kind != "" {
+				return false
+			}
+			if u, ok := m.(*ast.UnaryExpr); ok && u.Op == token.AND {
+				if cl, ok := unparen(u.X).(*ast.CompositeLit); ok {
+					if kk := w.KindOfType(info.TypeOf(cl)); kk != nil {
+						kind = kk.Name
+					}
+				}
+				return true
+			}
+			call, ok := m.(*ast.CallExpr)
+			if !ok {
+				return true
+			}
+			if id, ok := call.Fun.(*ast.Ident); ok && id.Name == "new" && len(call.Args) == 1 {
+				if kk := w.KindOfType(info.TypeOf(call.Args[0])); kk != nil {
+					kind = kk.Name
+				}
+				return true
+			}
+			if t := info.TypeOf(call); t != nil {
+				if kk := w.KindOfType(t); kk != nil {
+					if fn := w.calleeOf(info, call); fn != nil && strings.HasPrefix(fn.Name(), "New") {
+						kind = kk.Name
+					}
+				}
+			}
+			return true
+		})
+	}
+	switch x := unparen(e).(type) {
+	case *ast.FuncLit:
+		scan(x.Body)
+	case *ast.Ident, *ast.SelectorExpr:
+		// a named constructor used as a value
+		var id *ast.Ident
+		if i, ok := x.(*ast.Ident); ok {
+			id = i
+		} else {
+			id = x.(*ast.SelectorExpr).Sel
+		}
+		if fn, ok := info.Uses[id].(*types.Func); ok {
+			if sig, ok := fn.Type().(*types.Signature); ok && sig.Results().Len() >= 1 {
+				if kk := w.KindOfType(sig.Results().At(0).Type()); kk != nil && strings.HasPrefix(fn.Name(), "New") {
+					kind = kk.Name
+				} else if hf := w.FuncOf(fn); hf != nil && hf.Decl.Body != nil && depth < 2 {
+					scan(hf.Decl.Body)
+				}
+			}
+		}
+	default:
+		scan(e)
+	}
+	return kind
+}
+
+// dispatchTableCases: the entries of the package-level tables (map or slice composite literals with
+// constant keys) that the function indexes, as code → kind.
+func dispatchTableCases(w *World, fi *FuncInfo) map[int64]string {
+	out := map[int64]string{}
+	info := fi.Pkg.TypesInfo
+	seen := map[*types.Var]bool{}
+	var visit func(body ast.Node, depth int)
+	visit = func(body ast.Node, depth int) {
+		ast.Inspect(body, func(n ast.Node) bool {
+			if c, ok := n.(*ast.CallExpr); ok && depth < 1 {
+				// the table may be consulted in a one-level helper
+				if hf := w.FuncOf(w.calleeOf(info, c)); hf != nil && hf != fi && hf.Pkg == fi.Pkg && hf.Decl.Body != nil && hf.Decl.Name.Name != "UnmarshalBinary" {
+					visit(hf.Decl.Body, depth+1)
+				}
+			}
+			ix, ok := n.(*ast.IndexExpr)
+			if !ok {
+				return true
+			}
+			id, ok := unparen(ix.X).(*ast.Ident)
+			if !ok {
+				return true
+			}
+			v, ok := info.Uses[id].(*types.Var)
+			if !ok || v.Pkg() == nil || v.Parent() != v.Pkg().Scope() || seen[v] {
+				return true
+			}
+			seen[v] = true
+			init, pkg := w.globalInit(v)
+			cl, ok := unparen(init).(*ast.CompositeLit)
+			if !ok || pkg == nil {
+				return true
+			}
+			for _, el := range cl.Elts {
+				kv, ok := el.(*ast.KeyValueExpr)
+				if !ok {
+					continue
+				}
+				code, ok := constIntOf(pkg.TypesInfo, kv.Key)
+				if !ok {
+					continue
+				}
+				if k := allocatedKind(w, pkg.TypesInfo, kv.Value, 0); k != "" {
+					if _, dup := out[code]; !dup {
+						out[code] = k
+					}
+				}
+			}
+			return true
+		})
+	}
+	visit(fi.Decl.Body, 0)
 	return out
 }
 
